@@ -9,9 +9,29 @@
 
 use fpdec_core::{i128_div_rounded, ten_pow, Round};
 
-use crate::Decimal;
+use crate::{Decimal, DecimalError};
 #[cfg(doc)]
 use crate::RoundingMode;
+
+// Round a value with less than 39 significant digits to a multiple of 10^-n,
+// where n is less than the value's number of fractional digits minus 38.
+// Such a value is less than half of 10^-n, so it is rounded like +-0.1, i. e.
+// to zero or - depending on the rounding mode - to +-10^-n. Returns None if
+// the result can not be represented.
+#[inline]
+fn round_far(coeff: i128, n_frac_digits: i8) -> Option<i128> {
+    let unit = i128_div_rounded(coeff.signum(), 10, None);
+    if unit == 0 {
+        return Some(0);
+    }
+    let exp = -i16::from(n_frac_digits);
+    if exp > 38 {
+        return None;
+    }
+    #[allow(clippy::cast_possible_truncation)]
+    #[allow(clippy::cast_sign_loss)]
+    unit.checked_mul(ten_pow(exp as u8))
+}
 
 impl Round for Decimal {
     /// Returns a new `Decimal` with its value rounded to `n_frac_digits`
@@ -39,7 +59,13 @@ impl Round for Decimal {
         if n_frac_digits >= self.n_frac_digits as i8 {
             self
         } else if n_frac_digits < self.n_frac_digits as i8 - 38 {
-            Self::ZERO
+            match round_far(self.coeff, n_frac_digits) {
+                Some(coeff) => Self {
+                    coeff,
+                    n_frac_digits: 0,
+                },
+                None => panic!("{}", DecimalError::InternalOverflow),
+            }
         } else {
             // n_frac_digits < self.n_frac_digits
             let shift: u8 = (self.n_frac_digits as i8 - n_frac_digits) as u8;
@@ -86,7 +112,10 @@ impl Round for Decimal {
         if n_frac_digits >= self.n_frac_digits as i8 {
             Some(self)
         } else if n_frac_digits < self.n_frac_digits as i8 - 38 {
-            Some(Self::ZERO)
+            round_far(self.coeff, n_frac_digits).map(|coeff| Self {
+                coeff,
+                n_frac_digits: 0,
+            })
         } else {
             // n_frac_digits < self.n_frac_digits
             let shift: u8 = (self.n_frac_digits as i8 - n_frac_digits) as u8;
